@@ -161,6 +161,7 @@ def run_A(scn: Dict[str, Any], on, plugins=()) -> Dict[str, Any]:
         random.seed(a)
         _np.random.seed(b)
     logger = classes["RecLogger"]() if scn.get("logger", True) else None
+    mon.retain = logger is not None
     ctx.logger = logger
     res["phase"] = "construct"
     try:
@@ -291,12 +292,19 @@ class ExplorerRunner(SequentialRunner):
         agent = agents[op["a"] % len(agents)]
         market = sim.markets[op["m"] % len(sim.markets)]
         is_buy = op["side"] == "b"
+        ttl = op.get("ttl")
+        px = float(op["px"]) if op.get("kind", "limit") == "limit" else None
+        if op.get("typ"):
+            from .harness import typed_fields
+            is_buy, ttl = typed_fields(op["typ"], is_buy, ttl)
+            if op["typ"] == "np" and px is not None:
+                px = _np.float64(px)
         if op.get("kind", "limit") == "limit":
             o = Order(agent_id=agent.agent_id, market_id=market.market_id, is_buy=is_buy, kind=LIMIT_ORDER,
-                      volume=int(op["vol"]), price=float(op["px"]), ttl=op.get("ttl"))
+                      volume=int(op["vol"]), price=px, ttl=ttl)
         else:
             o = Order(agent_id=agent.agent_id, market_id=market.market_id, is_buy=is_buy, kind=MARKET_ORDER,
-                      volume=int(op["vol"]), ttl=op.get("ttl"))
+                      volume=int(op["vol"]), ttl=ttl)
         agent.mine.append(o)
         sim._trigger_event_before_order(order=o)
         log = market._add_order(order=o)
@@ -308,6 +316,19 @@ class ExplorerRunner(SequentialRunner):
         mon = self.mon
         mm = mon.mm[market.market_id]
         want = op.get("ref", "live")
+        if want in ("best", "nonbest"):
+            side = mm.buy if op.get("side", "b") == "b" else mm.sell
+            if not side:
+                side = mm.sell if side is mm.buy else mm.buy
+            ranked = sorted(side.values(), key=lambda o: o.rank())
+            ranked = [o for o in ranked if o.obj is not None]
+            if not ranked:
+                return None
+            if want == "best":
+                return ranked[0]
+            if len(ranked) < 2:
+                return None
+            return ranked[1 + int(op.get("nth", 0)) % (len(ranked) - 1)]
         cands = [o for o in mm.orders.values() if (want == "any" or o.status == want) and o.obj is not None]
         if not cands:
             return None
@@ -377,7 +398,8 @@ def run_B(scn: Dict[str, Any], on, plugins=()) -> Dict[str, Any]:
     ctx = Ctx(scn, mon)
     classes = make_classes(ctx)
     cfg = compile_config(scn, ctx, mon)
-    logger = classes["RecLogger"]()
+    logger = classes["RecLogger"]() if scn.get("logger", True) else None
+    mon.retain = logger is not None
     ctx.logger = logger
     res["phase"] = "setup"
     runner = ExplorerRunner(settings=cfg, prng=random.Random(scn["runner_seed"]), logger=logger,
